@@ -77,3 +77,15 @@ def ev(e, env, fn=None, depth=0):
         if len(defs) == 1:
             return ev(defs[0].value, env, fn, depth + 1)
     raise Unknown(txt)
+
+
+def taken(g, stmt, env, fn=None, ignore=lambda test: False):
+    """Is `stmt` executed when the atoms have the values of `env`?  Every guarding test that edge-dominates the
+    statement (g.conditions_at) is folded over env and must come out with the polarity of the dominating edge.
+    Tests for which `ignore(test)` holds are not folded (e.g. validation guards that raise). Raises Unknown."""
+    for (_node, test, pol) in g.conditions_at(g.nodes_of(stmt)):
+        if isinstance(_node, (ast.For, ast.AsyncFor)) or ignore(test):
+            continue
+        if bool(ev(test, env, fn)) != pol:
+            return False
+    return True
